@@ -18,11 +18,13 @@
      (m.heap only; <key> and the items of one operation are separated by U+001F, operations and reads are executed in argument order)
      R<field>         read        a<key>[^_<item>]*  caller: d[key] = [items]          d<key>  caller: del d[key]
      m<key>[^_<item>]*  caller: d[key][:] = [items] when d[key] is a list     h<key>[^_<item>]*  holder: getattr(m, key)[:] = [items] when it was read and is a list
+     u<key>[^_<label>^_<url>]*  caller: d[key].clear(); d[key].update(pairs) when d[key] is a dict      g<key>[^_<label>^_<url>]*  the same by the holder
+     first argument T: from_raw(validate=True) - the validation's reads happen before the operations (a rejected dict ends the run)
 
    The model run is MetaModel3.v (three-valued oracles, AttributeError for non-fields, sorted iteration order). *)
 From Coq Require Import List NArith Bool String.
 Import ListNotations.
-Require Import Show MetaTable MetaBase MetaShow MetaModel MetaModel3 MetaHeap EmailModel MetaEmailModel RunEmail.
+Require Import Show MetaTable MetaBase MetaShow MetaModel MetaModel3 MetaModels MetaHeap EmailModel MetaEmailModel RunEmail.
 Open Scope N_scope.
 
 Record oentry := { oe_comp : N; oe_key : list N; oe_v : option (list N); oe_c : option (list N); oe_w : option (list N); oe_x : option (list N) }.
@@ -117,6 +119,8 @@ Definition obs_from_email_doc (args : list (list N)) : list N :=
 
 (* m.heap: the heap model (MetaHeap.v): from_raw(validate=False) on the caller's dict object, then reads interleaved with in-place changes;
    output = the reads, then "#" and the caller's dict as it is at the end *)
+Fixpoint pairs_of (l : list (list N)) : list (list N * list N) :=
+  match l with a :: b :: t => (a, b) :: pairs_of t | _ => [] end.
 Definition heap_op (tok : list N) : list hop :=
   match tok with
   | [] => []
@@ -127,8 +131,10 @@ Definition heap_op (tok : list N) : list hop :=
       if tag =? 82 then [HRead body]
       else if tag =? 97 then [HSet key items]
       else if tag =? 100 then [HDel body]
-      else if tag =? 109 then [HMutCaller key items]
-      else if tag =? 104 then [HMutResult key items]
+      else if tag =? 109 then [HMutCaller key (VList items)]
+      else if tag =? 104 then [HMutResult key (VList items)]
+      else if tag =? 117 then [HMutCaller key (VDict (pairs_of items))]
+      else if tag =? 103 then [HMutResult key (VDict (pairs_of items))]
       else []
   end.
 Definition show_rawv (v : rawv) : list N :=
@@ -137,13 +143,26 @@ Definition obs_heap (args : list (list N)) : list N :=
   let st := parse_tokens (tl args) in
   let O := oracles_of (p_or st) in
   let w := world_of (rev (p_data st)) in
-  let '(w2, _, rs) := hrun O caller_loc (from_raw_h w caller_loc) (flat_map heap_op (tl args)) in
-  join bar (asc "OK" :: map show_res rs) ++ [35] ++
-  join [59] (map (fun kv => show_s (fst kv) ++ [61] ++ show_rawv (snd kv)) (deref w2 (odict (lookup caller_loc (w_dicts w2))))).
+  match hfrom_raw O (parse_bool (nth_str 0 args)) w caller_loc with
+  | inr r => show_fr O r []
+  | inl st0 =>
+      let '(w2, _, rs) := hrun O caller_loc st0 (flat_map heap_op (tl args)) in
+      join bar (asc "OK" :: map show_res rs) ++ [35] ++
+      join [59] (map (fun kv => show_s (fst kv) ++ [61] ++ show_rawv (snd kv)) (deref w2 (odict (lookup caller_loc (w_dicts w2)))))
+  end.
+
+(* m.from_raw_models: from_raw3 with the oracles instantiated by the component MODELS (SetsModel, ReqModel, LicTop: MetaModels.O_models);
+   only the content-type and pathlib verdicts come from the table.  This is the model C17_accept_iff_models is about. *)
+Definition obs_from_raw_models (args : list (list N)) : list N :=
+  let st := parse_tokens (tl args) in
+  let T := oracles_of (p_or st) in
+  let O := O_models (o3_ctype T) (o3_path T) in
+  show_fr O (from_raw3 O (parse_bool (nth_str 0 args)) (rev (p_data st))) (p_reads st).
 
 Definition run_meta (cmd : list N) (args : list (list N)) : option (list N) :=
   if seqb cmd (asc "m.from_raw") then Some (obs_from_raw args)
   else if seqb cmd (asc "m.from_email") then Some (obs_from_email args)
   else if seqb cmd (asc "m.from_email_doc") then Some (obs_from_email_doc args)
   else if seqb cmd (asc "m.heap") then Some (obs_heap args)
+  else if seqb cmd (asc "m.from_raw_models") then Some (obs_from_raw_models args)
   else None.
